@@ -403,7 +403,9 @@ Record CInv0 (sent : list pkt) (a : apc) (k : cons) : Prop := {
   ci_last : last (c_keep k) true = negb (c_disc k);
   ci_pushed : c_pushed k =
               c_prefill k ++ select (c_keep k) (window sent (c_regat k) (c_unregat k));
-  ci_closes : (c_pc k = CDone -> c_closes k = 1) /\ (c_pc k <> CDone -> c_closes k = 0)
+  ci_closes : (c_pc k = CDone -> c_closes k = 1) /\ (c_pc k <> CDone -> c_closes k = 0);
+  (* on the exit path (parked at remove.loaded, or finished) the consumer is out of the map *)
+  ci_exit : c_pc k = CExitLoaded \/ c_pc k = CDone -> c_reg k = false
 }.
 
 (* panic: once the n-th call of Consume has happened the goroutine is on its exit path *)
@@ -439,7 +441,7 @@ Ltac csimpl :=
        set_reg set_pc finish snapk with_qpc add_out cons0].
 
 Ltac cinv_break H :=
-  destruct H as [Hearly Hpc Ha1 Hreg Hunreg Halign Hlast Hpushed Hcloses].
+  destruct H as [Hearly Hpc Ha1 Hreg Hunreg Halign Hlast Hpushed Hcloses Hexit].
 
 (* ---- CInv0 ---- *)
 
@@ -467,6 +469,7 @@ Proof.
   - exact Hlast.
   - rewrite E2, E4. simpl. now rewrite app_nil_r.
   - exact Hcloses.
+  - exact Hexit.
 Qed.
 
 Lemma cinv0_queue sent k : CInv0 sent A0 k -> CInv0 sent A0W k.
@@ -493,6 +496,8 @@ Proof.
   - exact Hlast.
   - rewrite E4, window_reg_now. rewrite Hpushed, E2, E4. reflexivity.
   - exact Hcloses.
+  - intros Hp. exfalso. assert (E : A1 = ADone); [|discriminate].
+    apply Hpc. destruct Hp as [Hp|Hp]; rewrite Hp; discriminate.
 Qed.
 
 Lemma cinv0_unreg sent a k :
@@ -510,6 +515,7 @@ Proof.
   - exact Hlast.
   - rewrite window_unreg_now. rewrite E3 in Hpushed. exact Hpushed.
   - exact Hcloses.
+  - reflexivity.
 Qed.
 
 Lemma cinv0_close sent a k : CInv0 sent a k -> CInv0 sent a (close_cons fixed k).
@@ -522,6 +528,7 @@ Proof.
   - destruct Hcloses as [Hc1 Hc2]. split; intros Hd.
     + apply Hc1. now apply (pc_step_done _ _ Hstep).
     + apply Hc2. intros E0. apply Hd. now apply (pc_step_done _ _ Hstep).
+  - intros [Hp|Hp]; apply Hexit; [left; now apply (pc_step_exit _ _ Hstep)|right; now apply (pc_step_done _ _ Hstep)].
 Qed.
 
 Lemma cinv0_send sent a k p :
@@ -550,6 +557,7 @@ Proof.
   - destruct Hcloses as [Hc1 Hc2]. split; intros Hd.
     + apply Hc1. now apply (pc_step_done _ _ Hstep).
     + apply Hc2. intros E0. apply Hd. now apply (pc_step_done _ _ Hstep).
+  - intros [Hp|Hp]; apply Hexit; [left; now apply (pc_step_exit _ _ Hstep)|right; now apply (pc_step_done _ _ Hstep)].
 Qed.
 
 Lemma cinv0_grow sent a k p :
@@ -576,6 +584,7 @@ Proof.
   constructor; csimpl; auto.
   - intros Ea. specialize (Hpc L1). congruence.
   - split; [intros; congruence|]. intros _. now apply Hcloses.
+  - intros [E|E]; congruence.
 Qed.
 
 Lemma cinv0_add_out sent a k p : CInv0 sent a k -> CInv0 sent a (add_out k p).
@@ -589,16 +598,18 @@ Proof.
 Qed.
 
 Lemma cinv0_set_pc sent k pc' :
-  CInv0 sent ADone k -> c_pc k <> CDone -> pc' <> CDone -> CInv0 sent ADone (set_pc k pc').
+  CInv0 sent ADone k -> c_pc k <> CDone -> pc' <> CDone -> (pc' = CExitLoaded -> c_reg k = false) ->
+  CInv0 sent ADone (set_pc k pc').
 Proof.
-  intros H Hd Hd'. cinv_break H. constructor; csimpl; auto.
-  split; [intros; congruence|]. intros _. now apply Hcloses.
+  intros H Hd Hd' Hx. cinv_break H. constructor; csimpl; auto.
+  - split; [intros; congruence|]. intros _. now apply Hcloses.
+  - intros [E|E]; [auto|congruence].
 Qed.
 
 Lemma cinv0_finish sent k :
-  CInv0 sent ADone k -> c_pc k <> CDone -> CInv0 sent ADone (finish k).
+  CInv0 sent ADone k -> c_pc k <> CDone -> c_reg k = false -> CInv0 sent ADone (finish k).
 Proof.
-  intros H Hd. cinv_break H. constructor; csimpl; auto.
+  intros H Hd Hr. cinv_break H. constructor; csimpl; auto.
   - discriminate.
   - split; [|congruence]. intros _. destruct Hcloses as [_ Hc]. now rewrite Hc.
 Qed.
@@ -608,7 +619,7 @@ Lemma cinv0_exit_path sent k :
   CInv0 sent ADone (exit_path fixed k (length sent)).
 Proof.
   intros H Hd. unfold exit_path. simpl. destruct (c_reg k) eqn:Hr.
-  - apply cinv0_set_pc; [now apply cinv0_unreg|exact Hd|discriminate].
+  - apply cinv0_set_pc; [now apply cinv0_unreg|exact Hd|discriminate|reflexivity].
   - now apply cinv0_finish.
 Qed.
 
@@ -618,7 +629,7 @@ Lemma cinv0_loop_test sent k :
 Proof.
   intros H Hd. unfold loop_test. destruct (c_closed k).
   - now apply cinv0_exit_path.
-  - apply cinv0_set_pc; [assumption|assumption|discriminate].
+  - apply cinv0_set_pc; [assumption|assumption|discriminate|discriminate].
 Qed.
 
 (* ---- frames of the composite operations ---- *)
@@ -1139,7 +1150,8 @@ Proof.
     assert (Hpc1 : c_pc (close_cons fixed k) = CExitLoaded).
     { rewrite Ev. csimpl. now apply (pc_step_exit _ _ Hstep). }
     split; [|split].
-    + apply cinv0_finish; [assumption|congruence].
+    + apply cinv0_finish; [assumption|congruence|].
+      apply (ci_exit _ _ _ HC1). left. exact Hpc1.
     + apply (pinv_keep n (close_cons fixed k)); [assumption|reflexivity|].
       intros _ Hr. csimpl. auto.
     + intros Hg. apply (binv_shrink G sent (close_cons fixed k)); auto.
